@@ -38,7 +38,7 @@ PROPERTY = "C14"
 LEVEL = "exploration"
 RULE = ("case = generated project (shared packages, import sources, tools) + history of invocations in two "
         "workspaces sharing an archive and a shared store (upload builds, edits, incremental builds, download "
-        "builds) with -M defines; non-trivial = trails of at least three kinds of provenance (built / downloaded / "
+        "builds, user modifications of source workspaces) with -M defines; non-trivial = trails of at least three kinds of provenance (built / downloaded / "
         "shared / incremental-kept) were checked; distinct = digest of the checked (package, step, provenance) list")
 COMPONENTS = {"real": ["bob.audit (Audit/Artifact), builder._generateAudit", "archive up/download (file backend)", "share install/use",
                        "scm.imp audit"],
@@ -66,7 +66,12 @@ def gen_case(rng, tier, index):
                 cur = projgen.apply_edit(cur, e, hist)
                 hist.append(cur)
                 ops.append({"edit": e})
-        ops.append({"ws": rng.choice(["A", "B", "B"]), "upload": rng.random() < 0.5,
+        w = rng.choice(["A", "B", "B"])
+        if rng.random() < 0.3:
+            # the user touches a source workspace: Bob re-runs the (deterministic) checkout
+            # script because the workspace changed and must record what is there afterwards
+            ops.append({"tamper": rng.choice(["overwrite-generated", "add-file", "both"]), "ws": w, "pick": rng.randrange(100)})
+        ops.append({"ws": w, "upload": rng.random() < 0.5,
                     "download": rng.choice(["no", "yes", "deps", "forced-fallback"]),
                     "jobs": rng.choice([1, 2, 4]), "seed": rng.getrandbits(32),
                     "shared": rng.random() < 0.7})
@@ -311,6 +316,16 @@ def _verify_share(store, stats):
             dirs[:] = []
     return None
 
+def _glob_src(proj):
+    base = os.path.join(proj, "dev", "src")
+    out = []
+    for root, dirs, files in os.walk(base):
+        if os.path.basename(root) == "workspace":
+            out.append(root)
+            dirs[:] = []
+        dirs.sort()
+    return out
+
 def run_case(case):
     top = common.scratch_dir("c14-%d" % os.getpid())
     stats = common.Counter()
@@ -339,6 +354,16 @@ def run_case(case):
                 continue
             w = op["ws"]
             proj = projs[w]
+            if "tamper" in op:
+                cands = sorted(d for d in _glob_src(proj) if os.path.exists(os.path.join(d, "src-out.txt")))
+                if cands:
+                    d = cands[op["pick"] % len(cands)]
+                    if op["tamper"] in ("overwrite-generated", "both"):
+                        common.write_file(os.path.join(d, "src-out.txt"), "edited by the user %d\n" % n)
+                    if op["tamper"] in ("add-file", "both"):
+                        common.write_file(os.path.join(d, "user-note-%d.txt" % n), "note %d\n" % n)
+                    stats.inc("source_workspace_tampered")
+                continue
             mat[w] = projgen.materialise(model, proj, clock, mat[w])
             argv = ["dev", "-j", str(op["jobs"]), "--download", op["download"]]
             if op["upload"]:
